@@ -3,6 +3,8 @@
 
 package hc
 
+import "github.com/brutella/hc/hap"
+
 // Accessors used only by the external verification harness (build tag "verif").
 // They add no behaviour: without the tag this file is not compiled.
 
@@ -18,4 +20,10 @@ func (t *ipTransport) VerifPort() string {
 // VerifTxtRecords returns the mDNS TXT records the transport currently advertises.
 func (t *ipTransport) VerifTxtRecords() map[string]string {
 	return t.config.txtRecords()
+}
+
+// VerifContext returns the transport's session context, so that the harness can register a connection
+// without starting the network server.
+func (t *ipTransport) VerifContext() hap.Context {
+	return t.context
 }
